@@ -14,6 +14,7 @@ fn render(sym: &[String]) -> String {
             "B" => out.push_str("99999999999999999999"),
             "M" => out.push_str("9223372036854775807"),
             "T" => out.push_str("1500"),
+            "K" => out.push_str("1000"),
             x => out.push_str(x),
         }
     }
